@@ -636,9 +636,34 @@ def rule_info_syntax(ctx):
     ctx.floor("info line shapes", len(seen), 4)
 
 
-RULES = [("depth-units", rule_depth_units), ("sequence", rule_sequence), ("pv-legal", rule_pv_legal), ("score-src", rule_score_src), ("move-text", rule_move_text), ("info-syntax", rule_info_syntax)]
+def rule_line_atomic(ctx):
+    """A logged line reaches stdout as one write of `<text>\\n`: the search thread and the input thread both log, and two
+    writes per line (text, then newline) can be interleaved into `...pv e2e4readyok`."""
+    ix = ctx.ix
+    b = ctx.body("logger::Logger::log")
+    sym = ctx.sym(b)
+    outs = []
+    other_io = []
+    for bi, t in b.calls():
+        c = strip_generics(t.get("callee") or "")
+        if c == "std::io::_print":
+            outs.append((bi, t))
+        elif c.startswith("std::io::") or "::write" in c or "Write>" in c or c.endswith("::flush") or "stdout" in c.lower():
+            other_io.append((C.short(c), t.get("line")))
+    ok = len(outs) == 1 and not other_io
+    pieces = None
+    if ok:
+        a = sym.operand(outs[0][1]["args"][0])
+        tm = [x for x in walk(a) if isinstance(x, tuple) and x[0] == "const" and isinstance(x[2], str) and x[2].startswith("&[u8")]
+        pieces = template_pieces(tm[0][1]) if len(tm) == 1 and isinstance(tm[0][1], str) else None
+        ok = pieces == [None, "\n"] and not any(b.in_loop(bi) for bi, _t in outs)
+    ctx.check(ok, "Logger::log:one-write-per-line", "Logger::log prints `{message}\\n` with one print call (stdout's lock is held across text and newline)", b.where(outs[0][0] if outs else 0),
+              bad_what="Logger::log does not emit a line as one `{}\\n` print (print calls: %d, other stdout calls: %s, template: %s): lines of two threads can be spliced into each other" % (len(outs), other_io[:4], pieces))
+
+
+RULES = [("line-atomic", rule_line_atomic), ("depth-units", rule_depth_units), ("sequence", rule_sequence), ("pv-legal", rule_pv_legal), ("score-src", rule_score_src), ("move-text", rule_move_text), ("info-syntax", rule_info_syntax)]
 # "a principal variation that is a sequence of legal moves" rests on the legality filter
-RULES += engine.premise_rules("c01", ["filter", "probe"])
+RULES += engine.premise_rules("c01", ["filter", "probe", "square-arith"])
 # the reported score / move of an iteration is what its completed root search recorded
 RULES += engine.premise_rules("c11", ["root-result"])
 # "a search limited to depth N": the N the loop is bounded by is the N the GUI sent
